@@ -224,7 +224,8 @@ check("C13", "exploration",
       "null / empty members), nested `+:` and empty-container members; probes each with every function the property "
       "names (field lists, objectHasEx, value / key-value arrays incl. their lengths and single elements, std.get with "
       "failing defaults, mapWithKey with unused values, prune, objectRemoveKey, length / type / is*, equality, "
-      "assertEqual, primitiveEquals) and random pairs with mergePatch / equality, comparing value / error-ness with the "
+      "assertEqual, primitiveEquals; lookups, redefinition and `+:` extension of a removed name) and random pairs with mergePatch / equality "
+      "and with std.objectRemoveKey results composed on either side of the other chain (all name-set functions), comparing value / error-ness with the "
       "reference object model + the documented std.jsonnet definitions including their laziness; JSON-like values of "
       "depth <= 3 for mergePatch / prune / equals / primitiveEquals / xor / xnor against independent ports and RFC "
       "7396 output laws.",
@@ -278,7 +279,8 @@ check("C16", "exploration",
 
 check("C18", "exploration",
       "Collector: evaluates hand-written cyclic structures, the C03 sharing shapes, sampled C02 chains, random programs (values "
-      "and errors, stack overflows) and importing files three times each in fresh states, and batches in one long-lived state "
+      "and errors, stack overflows), 10 runaway recursions through guarded regions (object assertions, field reads, array elements, std "
+      "callbacks) cut off at every frame limit of a range (16 limits quick, 40 thorough) and importing files three times each in fresh states, and batches in one long-lived state "
       "that is then dropped, reading jrsonnet_gcmodule::count_thread_tracked() after collect_thread_cycles() and the interner "
       "pool size once every handle of the job is gone; the gauges must not grow from one repetition to the next. Interner: an "
       "operation-sequence driver runs every history of <= 4 (quick) / 6 (thorough) operations (intern str / bytes, clone, drop, "
